@@ -80,6 +80,8 @@ type Obligation struct {
 	Scripts    []string // case split: the obligation holds iff every case is unsat
 	ScriptsG   []string
 	ScriptG    string // same query with the remaining quantified assumptions dropped
+	ScriptsU   []string
+	ScriptU    string // reachability probes: the fully instantiated quantifier-free query (contradiction search)
 	groundPass bool
 	ScriptA    string // stage A: no quantified assumptions, no instances
 	ScriptB    string // stage B: goal-directed instances only, quantified assumptions dropped
@@ -419,7 +421,7 @@ func (e *FnExec) store(st *State, loc *Term, t types.Type, v *Term) {
 
 // checkLoopFrames: a store to (class, loc) inside a loop with a declared frame must stay inside it.
 func (e *FnExec) checkLoopFrames(st *State, class string, loc *Term, pos token.Pos) {
-	for _, li := range e.loops {
+	for _, li := range e.sortedLoops() {
 		if li.framed && li.blocks[e.curBlock] {
 			// objects allocated after the loop was entered are always inside the frame
 			e.assert(st, "loop-frame", Or(inItems(loc, class, li.items), Le(li.before.ctr, Root(loc))), pos, fmt.Sprintf("store stays inside the frame declared for loop %d", li.ordinal), fmt.Sprintf("loop%d", li.ordinal))
@@ -517,7 +519,12 @@ func (e *FnExec) merge(ins []*State, conds []*Term) *State {
 			cellKeys[k] = true
 		}
 	}
+	cellOrder := make([]int, 0, len(cellKeys))
 	for k := range cellKeys {
+		cellOrder = append(cellOrder, k)
+	}
+	sort.Ints(cellOrder)
+	for _, k := range cellOrder {
 		k := k
 		var dflt *Term
 		for _, s := range ins {
@@ -548,7 +555,7 @@ func (e *FnExec) merge(ins []*State, conds []*Term) *State {
 		out.epoch = e.P.epochs
 		mergedEpoch = true
 	}
-	for k := range classKeys {
+	for _, k := range sortedKeys(classKeys) {
 		k := k
 		out.mem[k] = pick(func(s *State) *Term { return e.getMem(s, k, e.classes[k]) })
 	}
@@ -658,7 +665,7 @@ func (e *FnExec) analyzeCFG() {
 			e.note("loop headers (%d) do not match source loop statements (%d): invariants keyed by header order only", len(headers), len(stmts))
 		}
 	}
-	for _, li := range e.loops {
+	for _, li := range e.sortedLoops() {
 		switch s := li.stmt.(type) {
 		case *ast.ForStmt:
 			li.inScope = s.Body.Lbrace + 1
@@ -970,6 +977,7 @@ func (e *FnExec) initCalledGhosts(st *State) {
 	for _, c := range e.con.Guards {
 		texts = append(texts, c.Text)
 	}
+	sort.Strings(texts)
 	for _, t := range texts {
 		rest := t
 		for {
@@ -1174,7 +1182,12 @@ func (e *FnExec) enterLoop(li *loopInfo, in *State) *State {
 	// havoc
 	st := in.clone()
 	cells, classes, all, allocs := e.loopModifies(li)
+	cellIDs := make([]int, 0, len(cells))
 	for id := range cells {
+		cellIDs = append(cellIDs, id)
+	}
+	sort.Ints(cellIDs)
+	for _, id := range cellIDs {
 		if srt, ok := e.iterSort[id]; ok {
 			st.cells[id] = Fresh("lh_"+e.cellName[id], srt)
 			continue
@@ -1208,7 +1221,13 @@ func (e *FnExec) enterLoop(li *loopInfo, in *State) *State {
 	if all && !li.framed {
 		e.havocAll(st, "loop with uncontracted call")
 	} else {
-		for c, s := range classes {
+		classNames := make([]string, 0, len(classes))
+		for c := range classes {
+			classNames = append(classNames, c)
+		}
+		sort.Strings(classNames)
+		for _, c := range classNames {
+			s := classes[c]
 			if li.framed {
 				has := false
 				for _, it := range li.items {
@@ -1354,4 +1373,15 @@ func (e *FnExec) backEdge(st *State, from *ssa.BasicBlock, li *loopInfo, cond *T
 	for p, v := range saved {
 		e.vals[p] = v
 	}
+}
+
+// sortedLoops returns the loops of the function in source (ordinal) order, so that the obligations and
+// fresh names generated per loop do not depend on map iteration order.
+func (e *FnExec) sortedLoops() []*loopInfo {
+	out := make([]*loopInfo, 0, len(e.loops))
+	for _, li := range e.loops {
+		out = append(out, li)
+	}
+	sort.Slice(out, func(i, j int) bool { return out[i].header.Index < out[j].header.Index })
+	return out
 }
